@@ -8,7 +8,7 @@
    is_authorized goes through them, so these theorems are re-checked against what the code says. *)
 From Coq Require Import NArith Arith List String.
 From Rodbus Require Import Base.Outcome Base.ServerTypes Model.Server Model.ServerRender Model.ServerExec Gen.AuthzTable Spec.Modbus
-  Proofs.ServerParse Proofs.ServerProofs Proofs.ServerProps Proofs.ServerTheorems.
+  Proofs.ServerParse Proofs.ServerProofs Proofs.ServerProps Proofs.ServerTheorems Proofs.AuthzTies.
 Import ListNotations.
 Local Open Scope N_scope.
 
@@ -82,6 +82,27 @@ Print Assumptions C08_default_deny.
 Theorem C08_dispatch : forall k, cb_kind (kind_cb k) = k.
 Proof. exact cb_kind_cb. Qed.
 Print Assumptions C08_dispatch.
+
+(* outside the session task: the C-ABI adapter calls, for each request kind, the C callback of its own name with
+   the unit id and the role of this very call and keeps no state (table regenerated from
+   ffi/rodbus-ffi/src/server.rs) ... *)
+Theorem C08_ffi_wrapper_forwards :
+  Forall forwards_faithfully Gen.FfiTables.authz_wrappers /\
+  map Gen.FfiTables.aw_method Gen.FfiTables.authz_wrappers =
+    ["read_coils"; "read_discrete_inputs"; "read_holding_registers"; "read_input_registers";
+     "write_single_coil"; "write_single_register"; "write_multiple_coils"; "write_multiple_registers"]%string /\
+  Gen.FfiTables.authz_wrapper_fields = ["inner"]%string.
+Proof. exact ffi_wrapper_forwards. Qed.
+Print Assumptions C08_ffi_wrapper_forwards.
+
+(* ... and the TLS server never turns authorization off: with a handler configured a session runs under it with
+   the role of the client certificate, or the connection is refused (regenerated from tcp/tls/server.rs) *)
+Theorem C08_tls_role_required :
+  Gen.TlsAuthz.tls_with_handler_on_role_failure = Gen.TlsAuthz.RefuseConnection /\
+  Gen.TlsAuthz.tls_with_handler_session_uses_certificate_role = true /\
+  Gen.TlsAuthz.tls_role_requires_exactly_one_extension = true /\ Gen.TlsAuthz.tls_without_handler_is_unauthorized_mode = true.
+Proof. exact tls_role_required. Qed.
+Print Assumptions C08_tls_role_required.
 
 (* non-vacuity: read-only policy, role "op": the read is served, the write is denied with exception
    01 and reaches no handler, the next read is served again (per request) *)
